@@ -7,6 +7,10 @@ NOTE = ("Trusted base: the gosmt executor's Go semantics (engine/*.go), z3 4.8.1
         "bounds are those of the harnesses (see DESIGN.md section of the property); inputs beyond them are outside the claim.")
 # id -> (claimed?, level text, design_ref, extra note / N/A reason)
 CHECKS = {
+ "C02": ("Chunk-insensitivity of every connection read site is decided by the solver: handshake and transfer preamble for all partitions (symbolic chunk sizes), prefix-stability lemma of the split functions for all data/lengths up to 70000, the real bufio.Scanner and the real upload receive path over a chunking reader for small streams.", "3/C02", "Whole-session equality is composed from the per-site results by argument (handlers only see tokens)."),
+ "C06": ("For all 2^64 creator bitmaps and all requested access fields (0..9 bytes) the created account's bits are a subset of the creator's on both creation requests; for all target/requester bitmaps and option bytes a protected target is never banned, disconnected or messaged.", "3/C06", "AccountManager, ban list and connection are recording stubs written in Go in the harness."),
+ "C13": ("Inductive step on the real MemClientMgr.Add from an arbitrary 32-bit counter value and an arbitrary live ID: the new ID is never live (covers histories of any length, including counter wrap-around).", "3/C13", "Only the ID-uniqueness and registry part of C13 is decided; notification convergence is not claimed in this revision."),
+ "C16": ("One query per obligation covers all 2^64 bitmaps: save/load round trip through the real MarshalYAML/UnmarshalYAML preserves every defined privilege and grants no other; each bit is stored under the key the protocol table gives it; legacy array form loads to the same bits.", "3/C16", "YAML library modelled by its contract: struct field tagged K <-> map key K (tags read from the compiled types)."),
  "C01": ("Every obligation (layout = reference encoder, prefixes, one-step drain lemma from an arbitrary cursor and buffer size) is decided by the solver for all field bytes/lengths within the stated bounds; a bounded unsat is 'holds within the bound'.", "3/C01", ""),
 }
 NA = {}
